@@ -21,6 +21,12 @@ def gen_stream(rng, name, zone, temps=TEMPS, kind=None, latent_p=0.12):
         a, b = b, a
     cp = rng.choice(CPS)
     dt = rng.choice(DTS)
+    if rng.random() < 0.07:
+        # narrow-glide stream (a condenser entered as 100.0004 -> 100.0): still hot/cold by its temperatures, not "isothermal"
+        d = rng.choice([0.000375, 0.000125, 0.0005, 0.00075])
+        q = float(rng.choice([5, 10, 40]))
+        b = a - d if (kind == "hot" or (kind is None and rng.random() < 0.5)) else a + d
+        return dict(zone=zone, name=name, t_supply=a, t_target=b, heat_flow=q, dt_cont=dt, htc=1.0)
     if rng.random() < latent_p:
         q = float(rng.choice([5, 10, 40, 80]))
         if kind == "hot":
@@ -76,6 +82,31 @@ def gen_utilities(rng, regime=None):
     return uts, regime
 
 
+def gen_utilities_steered(rng, streams):
+    """Ladder whose extreme levels sit at / just inside / just outside the process temperature extremes (+- the contributions),
+    with Hot, Cold and Both types: exercises the decision whether default utilities are still needed."""
+    def star(s):
+        lo, hi = sorted((s["t_supply"], s["t_target"]))
+        cold = s["t_supply"] <= s["t_target"]
+        d = s["dt_cont"] if cold else -s["dt_cont"]
+        return lo + d, hi + d, cold
+    views = [star(s) for s in streams]
+    top = max(v[1] for v in views)
+    bot = min(v[0] for v in views)
+    uts = []
+    du = rng.choice([0.0, 2.5, 5.0, 10.0])
+    lvl = top + rng.choice([-du, 0.0, du, du / 2 if du else 1.0, 2.5, -2.5, 50.0, -10.0])
+    g = rng.choice([0.0, 0.0, 1.0])
+    uts.append(dict(name="TopU", type=rng.choice(["Hot", "Both", "Both"]), t_supply=lvl, t_target=lvl - g, heat_flow=0.0, dt_cont=du, htc=1.0, price=30.0))
+    if rng.random() < 0.5:
+        uts.append(dict(name="MidU", type=rng.choice(["Hot", "Both"]), t_supply=(top + bot) / 2, t_target=(top + bot) / 2 - g, heat_flow=0.0,
+                        dt_cont=du, htc=1.0, price=20.0))
+    dc = rng.choice([0.0, 2.5, 5.0, 10.0])
+    lvl = bot + rng.choice([dc, 0.0, -dc, -(dc / 2) if dc else -1.0, -2.5, 2.5, -50.0, 10.0])
+    uts.append(dict(name="BotU", type=rng.choice(["Cold", "Both", "Cold"]), t_supply=lvl, t_target=lvl + g, heat_flow=0.0, dt_cont=dc, htc=1.0, price=2.0))
+    return uts, "steered"
+
+
 def gen_problem(rng, nzones=None, regime=None, nmax=7):
     nz = nzones or rng.choice([1, 1, 2, 3, 4])
     streams, shapes = [], []
@@ -85,8 +116,42 @@ def gen_problem(rng, nzones=None, regime=None, nmax=7):
             s["name"] = f"{s['name']}_{z}"
         streams += ss
         shapes.append(sh)
-    uts, reg = gen_utilities(rng, regime)
+    if regime == "steered":
+        uts, reg = gen_utilities_steered(rng, streams)
+    else:
+        uts, reg = gen_utilities(rng, regime)
     return dict(streams=streams, utilities=uts), dict(zones=nz, shapes=shapes, regime=reg)
+
+
+def gen_header_problem(rng):
+    """Two or three zones around a utility header: a Hot utility (use) and a separate Cold utility (generation) whose end
+    temperatures lie within ~1 K of each other (the level-matching rule of total-site targeting), one zone able to raise the
+    cold utility, another needing the hot one.  Offsets are random so that the raised heat is sometimes usable, sometimes not."""
+    L = rng.choice([90.0, 110.0, 125.0, 140.0, 175.0])
+    off = rng.choice([0.0, 0.0, 0.25, 0.5, 0.75, -0.25, -0.5, 1.5])
+    du = rng.choice([0.0, 0.0, 0.0, 5.0])
+    uts = [dict(name="HPS", type="Hot", t_supply=L + 175.0, t_target=L + 174.0, heat_flow=0.0, dt_cont=du, htc=1.0, price=30.0),
+           dict(name="LPS", type="Hot", t_supply=L + 0.5, t_target=L - 0.5, heat_flow=0.0, dt_cont=du, htc=1.0, price=20.0),
+           dict(name="LPraise", type="Cold", t_supply=L - 0.5 - off, t_target=L + 0.5 - off, heat_flow=0.0, dt_cont=du, htc=1.0, price=1.0),
+           dict(name="CW", type="Cold", t_supply=L - 105.0, t_target=L - 95.0, heat_flow=0.0, dt_cont=du, htc=1.0, price=2.0)]
+    dt = rng.choice([0.0, 2.5, 5.0])
+    q1, q2 = float(rng.choice([400, 1000, 1500])), float(rng.choice([300, 1000, 1200]))
+    a = rng.choice([1.0, 1.0, 5.0, 20.0])
+    s1, s2 = rng.choice([0.0, 0.0, 0.5, 1.0, -0.5]), rng.choice([0.0, 0.0, 0.5, -0.5, -1.0])
+    if rng.random() < 0.5:      # tight configuration: 1 K streams exactly at the header, only partially overlapping
+        a, s1, s2 = 1.0, rng.choice([0.0, 0.25]), rng.choice([0.0, -0.25])
+    # hot stream whose SHIFTED range is [L-1+s1+du, L-1+s1+du+a]; cold stream whose SHIFTED range is [L+0.5+s2-du-a, L+0.5+s2-du]:
+    # with s1 = s2 = 0 the raised heat (L-1..L) only half overlaps what the users need (L-0.5..L+0.5)
+    streams = [dict(zone="A", name="H1", t_supply=L - 1.0 + s1 + du + a + dt, t_target=L - 1.0 + s1 + du + dt, heat_flow=q1, dt_cont=dt, htc=1.0),
+               dict(zone="A", name="H2", t_supply=L - 40.0, t_target=L - 80.0, heat_flow=300.0, dt_cont=dt, htc=1.0),
+               dict(zone="B", name="C1", t_supply=L + 0.5 + s2 - du - a - dt, t_target=L + 0.5 + s2 - du - dt, heat_flow=q2, dt_cont=dt, htc=1.0),
+               dict(zone="B", name="C2", t_supply=L + 80.0, t_target=L + 120.0, heat_flow=400.0, dt_cont=dt, htc=1.0)]
+    if rng.random() < 0.5:
+        extra, _ = gen_streams(rng, zone="C", nmax=4)
+        for s in extra:
+            s["name"] += "_c"
+        streams += extra
+    return dict(streams=streams, utilities=uts), dict(zones=len({s["zone"] for s in streams}), shapes=["header"], regime="header")
 
 
 # --------------------------------------------------------------------------- drivers
